@@ -1046,3 +1046,255 @@ Proof. C18_model_tac. Qed.
    the chain holds all the same *)
 Example C18_model_include_dump_read_nonvacuous_backslash : C18_model_case C18_model_ex.a_top C18_model_ex.b_bsl.
 Proof. C18_model_tac. Qed.
+
+(* ================================================================================================== *)
+(* added from Properties/C18_add.v, job pj_fix (2026-10-01)                                   *)
+(* ================================================================================================== *)
+(* C18 (addition): the chain SDict.include + dump + read at the level of VALUES, and its totality when both files are
+   outputs of the writer (proofs: Proofs/AuditFix.v).  To be appended to Properties/C18.v. *)
+From Coq Require Import String.   (* string literals of the examples; imported first so the list names win *)
+From Coq Require Import NArith ZArith List Bool.
+From DictIO Require Import Chars Str Value Scalar KeyPath SDict Layout Lexer TokParser Reader Paths TreeSpec NativeSpec MiscSpec E2ESpec.
+From DictIO Require RereadTree RereadProofs RereadIncWrite RereadIncProofs E2EFullProofs.
+From DictIO Require Import IncludeProofs IncludeNested IncludeChainProofs IncludeChainFull AuditFix.
+Import ListNotations.
+
+(* VALUES.  C18_include_dump_read concludes that the top-level keys of the included file are PRESENT after the read.  Here:
+   the hypotheses of C18_include_dump_read plus fs_wf fs (Proofs/IncludeNested.v: every JSON unit of fs has unique keys at
+   every level, which is what json.loads returns; nothing is asked of native units).  pra: the parse of the dumped file;
+   prb: the parse of the unit at pb, at the counter pra's parse left (the read succeeded, so this parse did).
+   (1) every LEAF of prb at an ordinary key path p at which pra holds nothing (falls_off: nothing at p, and no leaf or list
+       above p; in particular every path below a top-level key that pra does not have) is found at p in the result with
+       the same value (leaf_ok: a top-level leaf must not be the self reference "$k", C06);
+   (2) the top-level case of (1);
+   (3) when the unit at pb has no include entries of its own, the data of the result are LITERALLY the model's merge of
+       the two parses in the model's merge order, merged_two A B =
+         let T := sd_merge sd_empty (sd_data B) (Some B) in let P := sd_merge A (sd_data T) (Some T) in
+         sd_merge P (sd_data P) (Some P)
+       and the counter is the one prb's parse left;
+   (4) under the same condition the WHOLE value (a leaf, a list, or a dict with everything below it) that prb holds under
+       a top-level key k which pra does not have is the value the result holds under k, provided that value is
+       ordinary (TreeSpec.ordinary: no placeholder key and no dollar / EXPRESSION string at any depth below; sufficient,
+       used for "clean-up leaves the subtree alone"; not shown necessary).
+   (5) "pra does not have the key k" follows from "da does not have it" for ordinary keys without the word COMMENT
+       (no_comment_word, AuditFix.v: the re-read theorems of C03 / C12 identify the parsed data up to comment entries, and a
+       comment entry is a string leaf under a key that contains COMMENT).
+   Without the condition "no include entries of its own" (3) and (4) are false: C18_values_own_includes_finding. *)
+Theorem C18_include_dump_read_values : forall fs pa pb da i c s c' ub,
+  norm_path pa = pa -> norm_path pb = pb ->
+  let sa := sd_with_include da i (include_name pa pb) pb in
+  plain_top da = true -> RereadIncWrite.rereadable_inc sa = true -> (-1 <= c)%Z ->
+  (Z.of_nat (List.length (RereadProofs.lc_list (RereadIncProofs.written_doc_inc sa))) <= 1000000)%Z ->
+  (Z.of_nat (List.length (RereadProofs.bc_list (RereadIncProofs.written_doc_inc sa))) <= 1000000)%Z ->
+  (Z.of_nat (List.length (RereadProofs.lit_list (RereadIncProofs.written_doc_inc sa))) <= 1000000)%Z ->
+  fs_wf fs = true ->
+  fs_lookup pa fs = Some (FNative (to_string_sd sa)) -> fs_lookup pb fs = Some ub ->
+  read_plain fs pa true true c = Ok (s, c') ->
+  exists pra prb,
+    parse_unit true pa c (FNative (to_string_sd sa)) = Ok pra /\
+    parse_unit true (path_join (dir_of pa) (include_name pa pb)) (pr_count pra) ub = Ok prb /\
+    (forall p v, forallb ordinary_key p = true -> leaf_ok p v = true ->
+       falls_off (Dict (sd_data (pr_sd pra))) p = true ->
+       get_dpath (Dict (sd_data (pr_sd prb))) p = Some (Leaf v) ->
+       get_dpath (Dict (sd_data s)) p = Some (Leaf v)) /\
+    (forall k v, ordinary_key k = true -> ordinary_leaf v = true ->
+       alookup k (sd_data (pr_sd pra)) = None ->
+       alookup k (sd_data (pr_sd prb)) = Some (Leaf v) -> alookup k (sd_data s) = Some (Leaf v)) /\
+    (sd_inc (pr_sd prb) = [] -> sd_data s = sd_data (merged_two (pr_sd pra) (pr_sd prb)) /\ c' = pr_count prb) /\
+    (forall k t, sd_inc (pr_sd prb) = [] -> ordinary_key k = true -> ordinary t = true ->
+       alookup k (sd_data (pr_sd pra)) = None ->
+       alookup k (sd_data (pr_sd prb)) = Some t -> alookup k (sd_data s) = Some t) /\
+    (forall k, ordinary_key k = true -> no_comment_word k = true -> alookup k da = None ->
+       alookup k (sd_data (pr_sd pra)) = None).
+Proof. exact include_dump_read_values. Qed.
+Print Assumptions C18_include_dump_read_values.
+
+(* TOTALITY.  The "read succeeds" hypothesis discharged when both files are outputs of the writer: a is dumped with its
+   include (NativeFormatter), the file at pb is the writer's text of a plain dict db of the round-trip class of C01
+   (unique keys, writable, at most a million quoted literals, none more than ten keys deep).  The read of pa succeeds, and
+   its data are the model's merge of the parse of the dumped file and of db with every leaf as written and re-read; and
+   every ordinary whole value of db (leaves as written and re-read) under a top-level key that the parse of the dumped
+   file does not have is the value of the result under that key. *)
+Theorem C18_include_dump_read_total : forall fs pa pb da db i c,
+  norm_path pa = pa -> norm_path pb = pb ->
+  let sa := sd_with_include da i (include_name pa pb) pb in
+  plain_top da = true -> RereadIncWrite.rereadable_inc sa = true -> (-1 <= c)%Z ->
+  (Z.of_nat (List.length (RereadProofs.lc_list (RereadIncProofs.written_doc_inc sa))) <= 1000000)%Z ->
+  (Z.of_nat (List.length (RereadProofs.bc_list (RereadIncProofs.written_doc_inc sa))) <= 1000000)%Z ->
+  (Z.of_nat (List.length (RereadProofs.lit_list (RereadIncProofs.written_doc_inc sa))) <= 1000000)%Z ->
+  wf (Dict db) = true -> writable_tree (Dict db) = true ->
+  (Z.of_nat (E2EFullProofs.nq (Dict db)) <= 1000000)%Z -> E2EFullProofs.quoted_within 11 (Dict db) = true ->
+  fs_lookup pa fs = Some (FNative (to_string_sd sa)) -> fs_lookup pb fs = Some (FNative (to_string_plain db)) ->
+  exists pra s c',
+    parse_unit true pa c (FNative (to_string_sd sa)) = Ok pra /\
+    read_plain fs pa true true c = Ok (s, c') /\
+    sd_data s = sd_data (merged_two (pr_sd pra) (mkSD (kvs_of (map_leaves written_value (Dict db))) [] [] [] [])) /\
+    (forall k t, ordinary_key k = true -> ordinary t = true ->
+       alookup k (sd_data (pr_sd pra)) = None ->
+       alookup k (kvs_of (map_leaves written_value (Dict db))) = Some t -> alookup k (sd_data s) = Some t) /\
+    (forall k, ordinary_key k = true -> no_comment_word k = true -> alookup k da = None ->
+       alookup k (sd_data (pr_sd pra)) = None).
+Proof. exact include_dump_read_total. Qed.
+Print Assumptions C18_include_dump_read_total.
+
+(* ---- non-vacuity ------------------------------------------------------------------------------------------ *)
+(* the included dict: x and the dict d are in both files; z, the nested dict e (with a quoted literal) and the list l
+   are in b only *)
+Module C18_val_ex.
+  Definition a_deep := of_string "/r/run 1/v1.2/a.dict".
+  Definition b_cousin := of_string "/r/other dir/v1.2/b.dict".
+  Definition da : list (key * tree) :=
+    [(KS (of_string "x"), Leaf (SInt 1)); (KS (of_string "d"), Dict [(KS (of_string "y"), Leaf (SStr (of_string "two words")))])].
+  Definition db : list (key * tree) :=
+    [(KS (of_string "x"), Leaf (SInt 9)); (KS (of_string "z"), Leaf (SInt 3));
+     (KS (of_string "e"), Dict [(KS (of_string "f"), Leaf (SInt 5)); (KS (of_string "g"), Leaf (SStr (of_string "more words")))]);
+     (KS (of_string "l"), Lst [Leaf (SInt 1); Leaf (SInt 2); Leaf (SInt 3)]);
+     (KS (of_string "d"), Dict [(KS (of_string "y"), Leaf (SInt 7)); (KS (of_string "w"), Leaf (SInt 8))])].
+  Definition sa := sd_with_include da 7 (include_name a_deep b_cousin) b_cousin.
+  Definition fs : fsys := [(a_deep, FNative (to_string_sd sa)); (b_cousin, FNative (to_string_plain db))].
+  Definition kp1 (a : string) : list key := [KS (of_string a)].
+  Definition kp2 (a b : string) : list key := [KS (of_string a); KS (of_string b)].
+End C18_val_ex.
+Import C18_val_ex.
+
+Example C18_include_dump_read_values_nonvacuous :
+  exists s c',
+    norm_path a_deep = a_deep /\ norm_path b_cousin = b_cousin /\ plain_top da = true /\ RereadIncWrite.rereadable_inc sa = true /\
+    (-1 <= 0)%Z /\
+    (Z.of_nat (List.length (RereadProofs.lc_list (RereadIncProofs.written_doc_inc sa))) <= 1000000)%Z /\
+    (Z.of_nat (List.length (RereadProofs.bc_list (RereadIncProofs.written_doc_inc sa))) <= 1000000)%Z /\
+    (Z.of_nat (List.length (RereadProofs.lit_list (RereadIncProofs.written_doc_inc sa))) <= 1000000)%Z /\
+    fs_wf fs = true /\
+    fs_lookup a_deep fs = Some (FNative (to_string_sd sa)) /\ fs_lookup b_cousin fs = Some (FNative (to_string_plain db)) /\
+    read_plain fs a_deep true true 0 = Ok (s, c') /\
+    (* from the theorem: *)
+    get_dpath (Dict (sd_data s)) (kp2 "e" "g") = Some (Leaf (SStr (of_string "more words"))) /\
+    get_dpath (Dict (sd_data s)) (kp2 "e" "f") = Some (Leaf (SInt 5)) /\
+    get_dpath (Dict (sd_data s)) (kp2 "d" "w") = Some (Leaf (SInt 8)) /\
+    alookup (KS (of_string "z")) (sd_data s) = Some (Leaf (SInt 3)) /\
+    alookup (KS (of_string "e")) (sd_data s) =
+      Some (Dict [(KS (of_string "f"), Leaf (SInt 5)); (KS (of_string "g"), Leaf (SStr (of_string "more words")))]) /\
+    alookup (KS (of_string "l")) (sd_data s) = Some (Lst [Leaf (SInt 1); Leaf (SInt 2); Leaf (SInt 3)]) /\
+    (exists pra prb, parse_unit true a_deep 0 (FNative (to_string_sd sa)) = Ok pra /\
+       parse_unit true (path_join (dir_of a_deep) (include_name a_deep b_cousin)) (pr_count pra) (FNative (to_string_plain db)) = Ok prb /\
+       sd_data s = sd_data (merged_two (pr_sd pra) (pr_sd prb)) /\ c' = pr_count prb) /\
+    (* computed: where a holds something, a wins *)
+    get_dpath (Dict (sd_data s)) (kp2 "d" "y") = Some (Leaf (SStr (of_string "two words"))) /\
+    alookup (KS (of_string "x")) (sd_data s) = Some (Leaf (SInt 1)).
+Proof.
+  destruct (read_plain fs a_deep true true 0%Z) as [[s c']|?] eqn:E; [|vm_compute in E; discriminate E].
+  exists s, c'.
+  assert (H1 : norm_path a_deep = a_deep) by (vm_compute; reflexivity).
+  assert (H2 : norm_path b_cousin = b_cousin) by (vm_compute; reflexivity).
+  assert (H3 : plain_top da = true) by (vm_compute; reflexivity).
+  assert (H4 : RereadIncWrite.rereadable_inc sa = true) by (vm_compute; reflexivity).
+  assert (H5 : (-1 <= 0)%Z) by (vm_compute; discriminate).
+  assert (H6 : (Z.of_nat (List.length (RereadProofs.lc_list (RereadIncProofs.written_doc_inc sa))) <= 1000000)%Z) by (vm_compute; discriminate).
+  assert (H7 : (Z.of_nat (List.length (RereadProofs.bc_list (RereadIncProofs.written_doc_inc sa))) <= 1000000)%Z) by (vm_compute; discriminate).
+  assert (H8 : (Z.of_nat (List.length (RereadProofs.lit_list (RereadIncProofs.written_doc_inc sa))) <= 1000000)%Z) by (vm_compute; discriminate).
+  assert (H9 : fs_wf fs = true) by (vm_compute; reflexivity).
+  assert (H10 : fs_lookup a_deep fs = Some (FNative (to_string_sd sa))) by (vm_compute; reflexivity).
+  assert (H11 : fs_lookup b_cousin fs = Some (FNative (to_string_plain db))) by (vm_compute; reflexivity).
+  destruct (C18_include_dump_read_values fs a_deep b_cousin da 7 0%Z s c' _ H1 H2 H3 H4 H5 H6 H7 H8 H9 H10 H11 E)
+    as (pra & prb & Hpa & Hpb & Hdeep & Htop & Hexact & Htree & Hkeys).
+  assert (Epa : sd_data (pr_sd pra) = match parse_unit true a_deep 0 (FNative (to_string_sd sa)) with Ok p => sd_data (pr_sd p) | Raise _ => [] end)
+    by (unfold sa; rewrite Hpa; reflexivity).
+  assert (Ecnt : pr_count pra = match parse_unit true a_deep 0 (FNative (to_string_sd sa)) with Ok p => pr_count p | Raise _ => 0%Z end)
+    by (unfold sa; rewrite Hpa; reflexivity).
+  remember (match parse_unit true a_deep 0 (FNative (to_string_sd sa)) with Ok p => pr_count p | Raise _ => 0%Z end) as n eqn:En.
+  vm_compute in En. subst n.
+  assert (Epb : pr_sd prb = match parse_unit true (path_join (dir_of a_deep) (include_name a_deep b_cousin)) (pr_count pra) (FNative (to_string_plain db)) with
+                            | Ok p => pr_sd p | Raise _ => sd_empty end)
+    by (rewrite Hpb; reflexivity).
+  rewrite Ecnt in Epb.
+  refine (conj H1 (conj H2 (conj H3 (conj H4 (conj H5 (conj H6 (conj H7 (conj H8 (conj H9 (conj H10 (conj H11 (conj eq_refl _)))))))))))).
+  split; [apply Hdeep; [vm_compute; reflexivity|reflexivity| rewrite Epa; vm_compute; reflexivity | rewrite Epb; vm_compute; reflexivity]|].
+  split; [apply Hdeep; [vm_compute; reflexivity|reflexivity| rewrite Epa; vm_compute; reflexivity | rewrite Epb; vm_compute; reflexivity]|].
+  split; [apply Hdeep; [vm_compute; reflexivity|reflexivity| rewrite Epa; vm_compute; reflexivity | rewrite Epb; vm_compute; reflexivity]|].
+  split; [apply Htop; [vm_compute; reflexivity|reflexivity| rewrite Epa; vm_compute; reflexivity | rewrite Epb; vm_compute; reflexivity]|].
+  split; [apply Htree; [rewrite Epb; vm_compute; reflexivity|vm_compute; reflexivity|vm_compute; reflexivity| apply Hkeys; vm_compute; reflexivity | rewrite Epb; vm_compute; reflexivity]|].
+  split; [apply Htree; [rewrite Epb; vm_compute; reflexivity|vm_compute; reflexivity|vm_compute; reflexivity| apply Hkeys; vm_compute; reflexivity | rewrite Epb; vm_compute; reflexivity]|].
+  split; [exists pra, prb; split; [exact Hpa|]; split; [exact Hpb|]; apply Hexact; rewrite Epb; vm_compute; reflexivity|].
+  vm_compute in E. injection E as Es _. rewrite <- Es. vm_compute. split; reflexivity.
+Qed.
+
+Example C18_include_dump_read_total_nonvacuous :
+  norm_path a_deep = a_deep /\ norm_path b_cousin = b_cousin /\ plain_top da = true /\ RereadIncWrite.rereadable_inc sa = true /\
+  (-1 <= 0)%Z /\
+  (Z.of_nat (List.length (RereadProofs.lc_list (RereadIncProofs.written_doc_inc sa))) <= 1000000)%Z /\
+  (Z.of_nat (List.length (RereadProofs.bc_list (RereadIncProofs.written_doc_inc sa))) <= 1000000)%Z /\
+  (Z.of_nat (List.length (RereadProofs.lit_list (RereadIncProofs.written_doc_inc sa))) <= 1000000)%Z /\
+  wf (Dict db) = true /\ writable_tree (Dict db) = true /\
+  (Z.of_nat (E2EFullProofs.nq (Dict db)) <= 1000000)%Z /\ E2EFullProofs.quoted_within 11 (Dict db) = true /\
+  fs_lookup a_deep fs = Some (FNative (to_string_sd sa)) /\ fs_lookup b_cousin fs = Some (FNative (to_string_plain db)) /\
+  exists pra s c',
+    parse_unit true a_deep 0 (FNative (to_string_sd sa)) = Ok pra /\
+    read_plain fs a_deep true true 0 = Ok (s, c') /\
+    sd_data s = sd_data (merged_two (pr_sd pra) (mkSD (kvs_of (map_leaves written_value (Dict db))) [] [] [] [])) /\
+    alookup (KS (of_string "l")) (sd_data s) = Some (Lst [Leaf (SInt 1); Leaf (SInt 2); Leaf (SInt 3)]) /\
+    alookup (KS (of_string "e")) (sd_data s) =
+      Some (Dict [(KS (of_string "f"), Leaf (SInt 5)); (KS (of_string "g"), Leaf (SStr (of_string "more words")))]).
+Proof.
+  assert (H1 : norm_path a_deep = a_deep) by (vm_compute; reflexivity).
+  assert (H2 : norm_path b_cousin = b_cousin) by (vm_compute; reflexivity).
+  assert (H3 : plain_top da = true) by (vm_compute; reflexivity).
+  assert (H4 : RereadIncWrite.rereadable_inc sa = true) by (vm_compute; reflexivity).
+  assert (H5 : (-1 <= 0)%Z) by (vm_compute; discriminate).
+  assert (H6 : (Z.of_nat (List.length (RereadProofs.lc_list (RereadIncProofs.written_doc_inc sa))) <= 1000000)%Z) by (vm_compute; discriminate).
+  assert (H7 : (Z.of_nat (List.length (RereadProofs.bc_list (RereadIncProofs.written_doc_inc sa))) <= 1000000)%Z) by (vm_compute; discriminate).
+  assert (H8 : (Z.of_nat (List.length (RereadProofs.lit_list (RereadIncProofs.written_doc_inc sa))) <= 1000000)%Z) by (vm_compute; discriminate).
+  assert (W1 : wf (Dict db) = true) by (vm_compute; reflexivity).
+  assert (W2 : writable_tree (Dict db) = true) by (vm_compute; reflexivity).
+  assert (W3 : (Z.of_nat (E2EFullProofs.nq (Dict db)) <= 1000000)%Z) by (vm_compute; discriminate).
+  assert (W4 : E2EFullProofs.quoted_within 11 (Dict db) = true) by (vm_compute; reflexivity).
+  assert (H10 : fs_lookup a_deep fs = Some (FNative (to_string_sd sa))) by (vm_compute; reflexivity).
+  assert (H11 : fs_lookup b_cousin fs = Some (FNative (to_string_plain db))) by (vm_compute; reflexivity).
+  do 14 (split; [assumption|]).
+  destruct (C18_include_dump_read_total fs a_deep b_cousin da db 7 0%Z H1 H2 H3 H4 H5 H6 H7 H8 W1 W2 W3 W4 H10 H11)
+    as (pra & s & c' & Hpa & Hread & Hdata & Htree & Hkeys).
+  exists pra, s, c'. split; [exact Hpa|]. split; [exact Hread|]. split; [exact Hdata|].
+  split; apply Htree; try (vm_compute; reflexivity); apply Hkeys; vm_compute; reflexivity.
+Qed.
+
+(* FINDING (expected behaviour, the reason for the condition of (3) and (4)): the unit at pb includes a third file c.dict
+   that also has a dict e.  Every hypothesis of C18_include_dump_read_values holds; the include table of prb is not
+   empty; the value under e in the result is the MERGE of b's and c's (b's wins where both hold something), not b's. *)
+Example C18_values_own_includes_finding :
+  let pc := of_string "/r/other dir/v1.2/c.dict" in
+  let tb := of_string "#include 'c.dict'
+e { f 5; }
+" in
+  let tc := of_string "e { f 0; h 6; }
+" in
+  let fs := [(a_deep, FNative (to_string_sd sa)); (b_cousin, FNative tb); (pc, FNative tc)] in
+  let ke := KS (of_string "e") in
+  fs_wf fs = true /\
+  match parse_unit true a_deep 0 (FNative (to_string_sd sa)) with
+  | Ok pra =>
+      match parse_unit true (path_join (dir_of a_deep) (include_name a_deep b_cousin)) (pr_count pra) (FNative tb),
+            read_plain fs a_deep true true 0 with
+      | Ok prb, Ok (s, _) =>
+          sd_inc (pr_sd prb) <> [] /\ alookup ke (sd_data (pr_sd pra)) = None /\
+          alookup ke (sd_data (pr_sd prb)) = Some (Dict [(KS (of_string "f"), Leaf (SInt 5))]) /\
+          alookup ke (sd_data s) = Some (Dict [(KS (of_string "f"), Leaf (SInt 5)); (KS (of_string "h"), Leaf (SInt 6))]) /\
+          alookup ke (sd_data (merged_two (pr_sd pra) (pr_sd prb))) = Some (Dict [(KS (of_string "f"), Leaf (SInt 5))])
+      | _, _ => False
+      end
+  | Raise _ => False
+  end.
+Proof. vm_compute. split; [reflexivity|]. split; [discriminate|]. repeat split; reflexivity. Qed.
+
+(* ---- non-vacuity examples under the theorems' own names ------------------------------------------------------ *)
+(* (the placements above are named ..._nonvacuous_same_folder etc. / ..._full_nonvacuous_...).  A further placement: the
+   included file three folders below the including one; C18_chain_case / C18_full_case list every hypothesis, obtain the
+   conclusion by applying the theorem (C18_chain_tac / C18_full_tac) and show what the read returns. *)
+Example C18_include_dump_read_partial_nonvacuous :
+  C18_chain_case (of_string "/r/a.dict") (of_string "/r/run 1/v1.2/deep dir/b.dict") /\
+  include_name (of_string "/r/a.dict") (of_string "/r/run 1/v1.2/deep dir/b.dict") = of_string "run 1/v1.2/deep dir/b.dict".
+Proof. split; [C18_chain_tac|vm_compute; reflexivity]. Qed.
+
+Example C18_include_dump_read_nonvacuous :
+  C18_full_case (of_string "/r/a.dict") (of_string "/r/run 1/v1.2/deep dir/b.dict") /\
+  C18_full_case (of_string "/r/run 1/v1.2/deep dir/a.dict") (of_string "/b.dict") /\
+  include_name (of_string "/r/run 1/v1.2/deep dir/a.dict") (of_string "/b.dict") = of_string "../../../../b.dict".
+Proof. split; [C18_full_tac|]. split; [C18_full_tac|vm_compute; reflexivity]. Qed.
